@@ -5,7 +5,7 @@ from ._replies_common import run_reply_stream
 THEOREMS = [("Sylvia.Thm.C07", "C07." + t) for t in
             ["unknown_id_errors", "success_runs_declared", "success_with_data", "success_runs_always", "error_runs_declared", "error_runs_always",
              "success_uncovered_passes_through", "error_uncovered_passes_through", "table_entries_compatible"]] + \
-           [("Sylvia.Lemmas.Reply", "Sylvia.Reply.replyTable_ok"), ("Sylvia.Thm.Obl.Tables", "Obl.extraction_complete"), ("Sylvia.Thm.Obl.Tables", "Obl.replyOn_documented")]
+           [("Sylvia.Lemmas.Reply", "Sylvia.Reply.replyTable_ok"), ("Sylvia.Thm.Obl.Complete.C07", "Obl.extraction_complete_C07"), ("Sylvia.Thm.Obl.T.replyOn_documented", "Obl.replyOn_documented")]
 
 
 def run(ctx):
